@@ -76,9 +76,12 @@ def run(prop, tier, seed, nworkers, only=None):
         ]
         if only:
             cmd += ["--only", only]
+        # the workers stop generating at 85% of the budget; the hard kill at 100% is the backstop
+        cmd += ["--budget", str(0.85 * float(os.environ.get(
+            "VERIF_TIMEOUT_S", "2400" if tier == "quick" else "3600")))]
         log = open(os.path.join(outdir, f"w{w}.log"), "w")
         procs.append((subprocess.Popen(cmd, cwd=VERIF_DIR, env=env, stdout=log, stderr=log), out, log))
-    budget = float(os.environ.get("VERIF_TIMEOUT_S", "2400" if tier == "quick" else "28800"))
+    budget = float(os.environ.get("VERIF_TIMEOUT_S", "2400" if tier == "quick" else "3600"))
     stall = float(os.environ.get("VERIF_STALL_S", "420"))
     deadline = t0 + budget
     running = dict(enumerate(procs))
